@@ -4,7 +4,38 @@ sys.path.insert(0, os.path.dirname(os.path.dirname(os.path.abspath(__file__))))
 from sim import jobs, campaign
 from sim.seeds import Seeds
 
+SNAP = os.path.join(os.path.dirname(os.path.abspath(__file__)), "corpus_digests.json")
+
+
+def snapshot(update=False):
+    """Compare the corpus goldens with the digests recorded in /verif (or record them).
+    Upstream's regression/reference is stale for files changed by the fix: commits."""
+    import hashlib, json
+    S = Seeds(1)
+    js = jobs.corpus_jobs()
+    G = campaign.compute_goldens(js, S)
+    cur = {}
+    for j in js:
+        g1 = G[j.id][0]
+        cur[j.id] = {os.path.basename(p): hashlib.sha1(t.encode('latin-1')).hexdigest() for p, t in g1['files'].items()}
+        cur[j.id]['#status'] = g1['status']
+    if update:
+        json.dump(cur, open(SNAP, 'w'), indent=0, sort_keys=True)
+        print('recorded', len(cur), 'jobs')
+        return 0
+    old = json.load(open(SNAP))
+    bad = 0
+    for jid in sorted(cur):
+        for f in sorted(set(cur[jid]) | set(old.get(jid, {}))):
+            if cur[jid].get(f) != old.get(jid, {}).get(f):
+                print(jid, 'differs from recorded snapshot:', f); bad += 1
+    print('corpus jobs', len(cur), 'files differing from snapshot', bad)
+    return 1 if bad else 0
+
+
 def main():
+    if '--snapshot' in sys.argv or '--update' in sys.argv:
+        return snapshot('--update' in sys.argv)
     S = Seeds(1)
     js = jobs.corpus_jobs()
     G = campaign.compute_goldens(js, S)
